@@ -253,6 +253,13 @@ func (t *simTransport) FastForward(target string, args *bnet.FastForwardRequest,
 	}
 	if err == nil {
 		nw.ffOffers = append(nw.ffOffers, [2]int{resp.Block.Index(), resp.Block.RoundReceived()})
+		pending := 0
+		for r := range resp.Frame.PeerSets {
+			if r > resp.Frame.Round {
+				pending++
+			}
+		}
+		nw.Res.count(fmt.Sprintf("ff_offers_with_%d_pending_validator_sets", pending), 1)
 	}
 	return err
 }
